@@ -182,3 +182,73 @@ Proof.
     inversion H; subst. eexists; reflexivity.
   - inversion H; subst. exists v1. eapply plan_collect_static; eassumption.
 Qed.
+
+(* ---- merged selection sets (a field group's sub-selection) ---- *)
+Lemma plan_all_saw_mono : forall fuel S D obj sets visited g saw g' v' saw',
+  plan_all fuel S D obj sets visited g saw = Some (g', v', saw') -> saw = true -> saw' = true.
+Proof.
+  intros fuel S D obj sets. induction sets as [|x sets IH]; intros visited g saw g' v' saw' H Hs.
+  - inversion H; subst. reflexivity.
+  - cbn [plan_all] in H.
+    destruct (plan_collect fuel S D obj x visited g saw) as [[[g1 v1] s1]|] eqn:E; [|discriminate].
+    eapply IH; [exact H|]. eapply plan_collect_saw_mono; eassumption.
+Qed.
+
+Lemma plan_all_static : forall fuel S D obj sets visited g saw g' v',
+  plan_all fuel S D obj sets visited g saw = Some (g', v', false) ->
+  forall vars, collect_all fuel S D vars obj sets visited g = Some g'.
+Proof.
+  intros fuel S D obj sets. induction sets as [|x sets IH]; intros visited g saw g' v' H vars.
+  - inversion H; subst. reflexivity.
+  - cbn [plan_all] in H. cbn [collect_all].
+    destruct (plan_collect fuel S D obj x visited g saw) as [[[g1 v1] s1]|] eqn:E; [|discriminate].
+    assert (s1 = false).
+    { destruct s1; [|reflexivity]. eapply plan_all_saw_mono in H; [discriminate|reflexivity]. }
+    subst. rewrite (plan_collect_static _ _ _ _ _ _ _ _ _ _ E vars). eapply IH. exact H.
+Qed.
+
+Lemma omap_keys : forall (S : schema) (D : document) (obj : name) fuel' (g : groups) fs,
+  omap (fun ko : name * list occ =>
+          let '(k, occs) := ko in
+          let fname := match occs with o :: _ => oc_name o | [] => "" end in
+          let sub :=
+              match find_field fname (object_fields S obj) with
+              | Some fd =>
+                if is_object_type S (named_of (f_type fd))
+                then match plan_tree fuel' S D (named_of (f_type fd)) (map oc_sub occs) with
+                     | Some t => Some (Some t)
+                     | None => None
+                     end
+                else Some None
+              | None => Some None
+              end in
+          match sub with
+          | Some st => Some (k, map oc_id occs, st)
+          | None => None
+          end) g = Some fs ->
+  map (fun x => fst (fst x)) fs = map fst g.
+Proof.
+  intros S D obj fuel'. induction g as [|[k occs] g IH]; intros fs H; cbn [omap] in H.
+  - inversion H. reflexivity.
+  - match type of H with match ?a with _ => _ end = _ => destruct a as [[[k0 ns] st]|] eqn:E1 end; [|discriminate].
+    match type of H with match ?a with _ => _ end = _ => destruct a as [fs'|] eqn:E2 end; [|discriminate].
+    inversion H; subst. cbn [map fst]. f_equal; [|apply IH; reflexivity].
+    cbv zeta in E1.
+    destruct (find_field _ _) as [fd|]; [destruct (is_object_type S (named_of (f_type fd)));
+      [destruct (plan_tree fuel' S D _ _); [|discriminate]|]|]; inversion E1; reflexivity.
+Qed.
+
+(* a static level of the prepared plan lists exactly the response keys CollectFields yields,
+   for every variable assignment *)
+Lemma plan_tree_static_level : forall fuel S D obj sets fs,
+  plan_tree (Datatypes.S fuel) S D obj sets = Some (PT false fs) ->
+  exists g, (forall vars, collect_all fuel S D vars obj sets [] [] = Some g) /\
+            map (fun x => fst (fst x)) fs = map fst g.
+Proof.
+  intros fuel S D obj sets fs H. cbn [plan_tree] in H.
+  destruct (plan_all fuel S D obj sets [] [] false) as [[[g v] [|]]|] eqn:E; try discriminate.
+  match type of H with match ?a with _ => _ end = _ => destruct a as [fs'|] eqn:Eo end; [|discriminate].
+  inversion H; subst. exists g. split.
+  - intro vars. eapply plan_all_static. exact E.
+  - eapply omap_keys. exact Eo.
+Qed.
